@@ -275,6 +275,9 @@ Tangent<G> Spline<K, G>::arclength(double t) const
 {
   Tangent<G> ret = Tangent<G>::Zero();
 
+  // nothing is traversed before the start of the Spline
+  t = std::max<double>(t, 0);
+
   for (auto i = 0u; i < m_end_t.size(); ++i) {
     // check if we have reached t
     if (i > 0 && t <= m_end_t[i - 1]) { break; }
